@@ -126,4 +126,28 @@ theorem zipStar_map_zipStar {α β γ} (F : γ → α → β) (n : Nat) (hn : 0 
           simp [hR] at this; omega), ihh]
         simp
 
+/-- every cell of a row of the transposed table is a cell of one of the columns -/
+theorem zipStar_cells_mem {α} (cols : List (List α)) :
+    ∀ row ∈ zipStar cols, ∀ d ∈ row, ∃ col ∈ cols, d ∈ col := by
+  induction cols with
+  | nil => simp [zipStar]
+  | cons c cs ih =>
+    cases cs with
+    | nil =>
+      intro row hrow d hd
+      simp only [zipStar, List.mem_map] at hrow
+      obtain ⟨x, hx, rfl⟩ := hrow
+      simp only [List.mem_singleton] at hd
+      subst hd
+      exact ⟨c, by simp, hx⟩
+    | cons c' cs' =>
+      intro row hrow d hd
+      rw [zipStar_cons_cons] at hrow
+      obtain ⟨i, hi, rfl⟩ := List.getElem_of_mem hrow
+      simp only [List.getElem_zipWith, List.mem_cons] at hd
+      rcases hd with rfl | hd
+      · exact ⟨c, by simp, List.getElem_mem _⟩
+      · obtain ⟨col, hcol, hd'⟩ := ih _ (List.getElem_mem _) d hd
+        exact ⟨col, by simp [hcol], hd'⟩
+
 end Scsv
